@@ -78,6 +78,9 @@ MUTANTS = [
     ("dual1_edge_list", "bempp_cl/api/space/scalar_dual_spaces.py", "enumerate([[1, 5], [13, 17], [7, 11]])", "enumerate([[1, 5], [7, 11], [13, 17]])", 0, ["C10"]),
     ("bary_connectivity", "bempp_cl/api/grid/grid.py", "        new_elements[1, 6 * index + 2] = local_vertex_ids[2]", "        new_elements[1, 6 * index + 2] = local_vertex_ids[1]", 0, ["C10", "C11"]),
     ("refine_orientation", "bempp_cl/api/grid/grid.py", "new_elements[:, 4 * index + 3] = [vertex01, vertex12, vertex20]", "new_elements[:, 4 * index + 3] = [vertex01, vertex20, vertex12]", 0, ["C11", "C04"]),
+    ("incidence_ravel_order", "bempp_cl/api/grid/grid.py", "vertex_indices = _np.ravel(elements, order=\"F\")", "vertex_indices = _np.ravel(elements, order=\"C\")", 0, ["C11"]),
+    ("edge_neighbours_wrong_value", "bempp_cl/api/grid/grid.py", "edge_neighbors[self.element_edges[local_index, element_index]].append(element_index)", "edge_neighbors[self.element_edges[local_index, element_index]].append(local_index)", 0, ["C11"]),
+    ("element_neighbours_of_vertex_matrix", "bempp_cl/api/grid/grid.py", "self._element_neighbors = IndexList(elem_to_elem_matrix.indices, elem_to_elem_matrix.indptr)", "self._element_neighbors = IndexList(self._element_to_vertex_matrix.indices, self._element_to_vertex_matrix.indptr)", 0, ["C11"]),
     ("edge_enum_not_registered", "bempp_cl/api/grid/grid.py", "                edge_tuple_to_index[edge_tuple] = edge_index\n", "", 0, ["C11"]),
     ("edge_enum_counter_first", "bempp_cl/api/grid/grid.py", "                edge_index = number_of_edges\n                edge_tuple_to_index[edge_tuple] = edge_index\n                edges.append(edge_tuple)\n                number_of_edges += 1\n", "                number_of_edges += 1\n                edge_index = number_of_edges\n                edge_tuple_to_index[edge_tuple] = edge_index\n                edges.append(edge_tuple)\n", 0, ["C11"]),
     ("segments_grid_unmapped_elements", "bempp_cl/api/grid/grid.py", "new_elements = new_vertex_map[new_elements.ravel()].reshape(3, -1)", "new_elements = new_vertex_map[new_elements.ravel()].reshape(-1, 3).T", 0, ["C11"]),
